@@ -1726,6 +1726,11 @@ class KmipEngine(object):
         attribute_name = enums.convert_attribute_tag_to_name(
             payload.new_attribute.attribute.tag
         )
+        if attribute_name not in \
+                self._attribute_policy.get_all_attribute_names():
+            raise exceptions.ItemNotFound(
+                "No attribute with the specified name exists."
+            )
         if self._attribute_policy.is_attribute_multivalued(attribute_name):
             raise exceptions.KmipError(
                 status=enums.ResultStatus.OPERATION_FAILED,
@@ -1780,6 +1785,12 @@ class KmipEngine(object):
             attribute_name = enums.convert_attribute_tag_to_name(
                 new_attribute.tag
             )
+
+            if attribute_name not in \
+                    self._attribute_policy.get_all_attribute_names():
+                raise exceptions.ItemNotFound(
+                    "No attribute with the specified name exists."
+                )
 
             if not self._attribute_policy.is_attribute_modifiable_by_client(
                 attribute_name
